@@ -507,15 +507,19 @@ Proof.
 Qed.
 
 (* the sequential deletions of the first loop amount to one filter *)
-Lemma update_delete_closed fresh : forall cur,
-  update_delete fresh cur = filter (fun h => negb (existsb (fun e => deleted_by e h) (update_added fresh))) cur.
+Lemma update_delete_sk_closed sk fresh : forall cur,
+  update_delete_sk sk fresh cur =
+  filter (fun h => negb (existsb (fun e => deleted_by e h) (filter (fun e => negb (sk e)) fresh))) cur.
 Proof.
   induction fresh as [|e r IH]; intros cur.
-  - cbn [update_delete update_added filter existsb negb]. now rewrite filter_true.
-  - cbn [update_delete]. unfold update_added. cbn [filter]. fold (update_added r).
-    destruct (skip_update_header (hdr_id e)); cbn [negb]; [apply IH|].
+  - cbn [update_delete_sk filter existsb negb]. now rewrite filter_true.
+  - cbn [update_delete_sk filter].
+    destruct (sk e); cbn [negb]; [apply IH|].
     rewrite IH, filter_filter. apply filter_ext_all. intros h. cbn [existsb]. now rewrite negb_orb.
 Qed.
+Lemma update_delete_closed fresh cur :
+  update_delete fresh cur = filter (fun h => negb (existsb (fun e => deleted_by e h) (update_added fresh))) cur.
+Proof. unfold update_delete, update_added. apply update_delete_sk_closed. Qed.
 
 (* caseless name comparison is an equivalence, and ids are a function of the caseless name *)
 Lemma ci_eqb_refl a : ci_eqb a a = true.
@@ -624,7 +628,9 @@ Theorem need_update_false old fresh :
   forall e, In e (update_added fresh) -> get_named old (h_name e) = Some (get_by_name fresh (h_name e)).
 Proof.
   intros H e He. unfold update_added in He. apply filter_In in He. destruct He as [Hin Hs].
-  pose proof (existsb_false_all _ _ H e Hin) as Hf. cbn beta in Hf. rewrite Hs in Hf. cbn [andb] in Hf.
+  apply negb_true_iff in Hs. unfold skip_entry in Hs. apply orb_false_iff in Hs. destruct Hs as [Hs _].
+  apply orb_false_iff in Hs. destruct Hs as [Hs _].
+  pose proof (existsb_false_all _ _ H e Hin) as Hf. cbn beta in Hf. rewrite Hs in Hf. cbn [andb negb] in Hf.
   destruct (get_named old (h_name e)) as [v|]; [|discriminate].
   apply negb_false_iff in Hf. apply leqb_eq in Hf. now subst v.
 Qed.
@@ -652,8 +658,36 @@ Theorem vary_not_updated old fresh h :
 Proof.
   rewrite hdr_update_closed. intros Hin Hv. apply in_app_or in Hin. destruct Hin as [Hin|Hin].
   - apply filter_In in Hin. tauto.
-  - unfold update_added in Hin. apply filter_In in Hin. destruct Hin as [_ Hs]. unfold skip_update_header in Hs.
+  - unfold update_added in Hin. apply filter_In in Hin. destruct Hin as [_ Hs]. unfold skip_entry, skip_update_header in Hs.
     rewrite Hv, N.eqb_refl in Hs. discriminate.
+Qed.
+
+(* repaired code: nothing hop-by-hop of the 304 (by the registered-header table, or nominated by the 304's own
+   Connection field) enters the stored header, and such fields delete nothing *)
+Theorem hop_by_hop_of_304_not_merged old fresh h :
+  In h (hdr_update old fresh) ->
+  In h old \/
+  (In h fresh /\ is_hopbyhop (hdr_id h) = false /\ is_member (conn_value fresh) (h_name h) = false /\ hdr_id h <> ID_VARY).
+Proof.
+  rewrite hdr_update_closed. intros Hin. apply in_app_or in Hin. destruct Hin as [Hin|Hin].
+  - left. apply filter_In in Hin. tauto.
+  - right. unfold update_added in Hin. apply filter_In in Hin. destruct Hin as [Hf Hs].
+    apply negb_true_iff in Hs. unfold skip_entry in Hs. apply orb_false_iff in Hs. destruct Hs as [Hs Hm].
+    apply orb_false_iff in Hs. destruct Hs as [Hv Hh]. repeat split; try assumption.
+    unfold skip_update_header in Hv. now apply N.eqb_neq.
+Qed.
+Theorem stored_field_deleted_only_by_end_to_end_304_field old fresh h :
+  In h old -> ~ In h (hdr_update old fresh) ->
+  exists e, In e fresh /\ ci_eqb (h_name h) (h_name e) = true /\
+            is_hopbyhop (hdr_id e) = false /\ is_member (conn_value fresh) (h_name e) = false.
+Proof.
+  rewrite hdr_update_closed. intros Hin Hnot.
+  destruct (named_in (update_added fresh) h) eqn:En.
+  - unfold named_in in En. apply existsb_exists in En. destruct En as [e [He Hc]].
+    unfold update_added in He. apply filter_In in He. destruct He as [Hf Hs].
+    apply negb_true_iff in Hs. unfold skip_entry in Hs. apply orb_false_iff in Hs. destruct Hs as [Hs Hm].
+    apply orb_false_iff in Hs. destruct Hs as [_ Hh]. exists e. repeat split; assumption.
+  - exfalso. apply Hnot. apply in_or_app. left. apply filter_In. split; [exact Hin|]. now rewrite En.
 Qed.
 
 (* handleIMSReply: after an origin 304 the client gets a 304 only if it sent a usable If-Modified-Since that covers
